@@ -45,6 +45,13 @@ Qed.
 (* ------------------------------------------------------------------ *)
 (* parse_file / parse_string                                           *)
 (* ------------------------------------------------------------------ *)
+(* Consequences of the modelled data flow (Model.ParseEntry): [parser] is a
+   function of the pre-processed text and has no access to [src], so these
+   lemmas are parametricity facts — true of the model whatever the code does.
+   They are NOT obligations of props/C05.v (removed there after the second
+   review); the tie of this data flow to parser_logic.rs is the run-time AST
+   comparison through the hook parser::verif::parse_source (lib/props/C05.py,
+   part "parse entry"). *)
 
 Section Entry.
   Variables R A : Type.
@@ -62,23 +69,23 @@ Section Entry.
     parse_string parser ok s = match lex_spec s with Ok t => ok (parser t) | _ => None end.
   Proof. intro s. unfold parse_string. now rewrite preprocess_refines_lexer. Qed.
 
-  Theorem parse_file_sees_only_lexed_text : forall s1 s2,
+  Lemma parse_file_sees_only_lexed_text : forall s1 s2,
     lex_spec s1 = lex_spec s2 -> parse_file parser finish s1 = parse_file parser finish s2.
   Proof. intros s1 s2 H. now rewrite !parse_file_factors, H. Qed.
 
-  Theorem parse_string_sees_only_lexed_text : forall s1 s2,
+  Lemma parse_string_sees_only_lexed_text : forall s1 s2,
     lex_spec s1 = lex_spec s2 -> parse_string parser ok s1 = parse_string parser ok s2.
   Proof. intros s1 s2 H. now rewrite !parse_string_factors, H. Qed.
 
-  Theorem parse_file_blank_invariant : forall s,
+  Lemma parse_file_blank_invariant : forall s,
     parse_file parser finish (blank_comments s) = parse_file parser finish s.
   Proof. intro s. apply parse_file_sees_only_lexed_text, lex_blank_invariant. Qed.
 
-  Theorem parse_string_blank_invariant : forall s,
+  Lemma parse_string_blank_invariant : forall s,
     parse_string parser ok (blank_comments s) = parse_string parser ok s.
   Proof. intro s. apply parse_string_sees_only_lexed_text, lex_blank_invariant. Qed.
 
-  Theorem parse_file_block_comment_content_irrelevant : forall a c1 c2 b,
+  Lemma parse_file_block_comment_content_irrelevant : forall a c1 c2 b,
     plain_code a -> block_comment c1 -> block_comment c2 -> text_bytes c1 = text_bytes c2 ->
     parse_file parser finish (a ++ c1 ++ b) = parse_file parser finish (a ++ c2 ++ b).
   Proof.
@@ -86,7 +93,7 @@ Section Entry.
     now rewrite (block_comment_content_irrelevant a c1 c2 b Ha H1 H2 Hb).
   Qed.
 
-  Theorem parse_file_line_comment_content_irrelevant : forall a c1 c2 b,
+  Lemma parse_file_line_comment_content_irrelevant : forall a c1 c2 b,
     plain_code a -> line_comment c1 -> line_comment c2 -> text_bytes c1 = text_bytes c2 ->
     (b = [] \/ exists b', b = 10 :: b') ->
     parse_file parser finish (a ++ c1 ++ b) = parse_file parser finish (a ++ c2 ++ b).
@@ -97,14 +104,14 @@ Section Entry.
 
   (* a file that ends inside a block comment: the answer is the unclosed-comment
      error at the opener, whatever the parser would have said *)
-  Theorem parse_file_unclosed_comment : forall s o,
+  Lemma parse_file_unclosed_comment : forall s o,
     open_block_at_end s o -> parse_file parser finish s = Err (unclosed o).
   Proof.
     intros s o H. apply unclosed_comment_iff_open_block in H.
     unfold parse_file. now rewrite H.
   Qed.
 
-  Theorem parse_string_unclosed_comment : forall s o,
+  Lemma parse_string_unclosed_comment : forall s o,
     open_block_at_end s o -> parse_string parser ok s = None.
   Proof.
     intros s o H. apply unclosed_comment_iff_open_block in H.
@@ -113,7 +120,7 @@ Section Entry.
 
   (* otherwise the parser is run exactly once, on the file with its comment
      scalars blanked (same byte length, every other scalar at its offset) *)
-  Theorem parse_file_parser_input : forall s,
+  Lemma parse_file_parser_input : forall s,
     (exists o, open_block_at_end s o) \/
     exists t, blanked s t /\ text_bytes t = text_bytes s /\
               parse_file parser finish s = finish (parser t) /\
